@@ -143,9 +143,20 @@ func (c *Channel) Deliver(out, x []byte) ([]byte, error) {
 	now := time.Now()
 	var appData []byte
 	if err := c.doThenSend(func() ([]byte, error) {
+		isInitHello := IsInitHello(x)
+		var helloID [32]byte
+		if isInitHello {
+			helloID = blake2b.Sum256(x)
+		}
 		for i, se := range c.sessions {
 			s := se.Session
 			if s == nil {
+				continue
+			}
+			if isInitHello && !s.IsInit() && se.ID != helloID {
+				// An InitHello only concerns the responder session it created. Older responder sessions would
+				// answer any InitHello with their cached reply, and a peer that has restarted could never
+				// start a new session.
 				continue
 			}
 			readyBefore := s.IsReady()
